@@ -157,7 +157,10 @@ pub fn run(out: &mut Out, _tier: &str, _seed: u64) {
         for ((pm, lm), path) in paths.iter() { for op in 0..NOPS {
             if !permitted(c, *pm, *lm, op) { continue; }
             let k = cells.len(); cells.push((*pm, *lm, op));
-            fns.push_str(&format!("fn check_{k}(p: Protected<{cont}, tr::{}, tr::{}>) {{ {} }}\nfn cell_{k}() {{ let p = {ctor}::from_slice_into_locked(&[7u8; 32]).unwrap(){path}; check_{k}(p); }}\n", pms[*pm], lms[*lm], snippet(op)));
+            // locking a no-access region type-checks (Lock is generic over the protection) but the state (NoAccess, Locked) is one the
+            // table forbids: at run time the call must come back as an error
+            let body = if op == 6 && *pm == 2 { "match p.mlock() { Ok(_) => std::process::exit(3), Err(_) => {} }" } else { snippet(op) };
+            fns.push_str(&format!("fn check_{k}(p: Protected<{cont}, tr::{}, tr::{}>) {{ {} }}\nfn cell_{k}() {{ let p = {ctor}::from_slice_into_locked(&[7u8; 32]).unwrap(){path}; check_{k}(p); }}\n", pms[*pm], lms[*lm], body));
             arms.push_str(&format!("{k} => cell_{k}(), "));
         } }
         let src = format!("#![feature(allocator_api)]\n#![allow(unused)]\nuse dryoc::protected::*;\nuse dryoc::protected::traits as tr;\nuse dryoc::types::*;\n{fns}fn main() {{ let k: usize = std::env::args().nth(1).unwrap().parse().unwrap(); match k {{ {arms}_ => {{}} }} }}\n");
@@ -171,7 +174,8 @@ pub fn run(out: &mut Out, _tier: &str, _seed: u64) {
                     out.search_evaluations += 1;
                     let st = Command::new(&bin).arg(k.to_string()).stderr(std::process::Stdio::null()).status();
                     let ok = st.as_ref().map(|s| s.success()).unwrap_or(false);
-                    if !ok { out.hit("typestate.permitted-program-faults", format!("{}: state ({}, {}), operation {}: the permitted program ends with {:?}", cont, pms[*pm], lms[*lm], OPS[*op], st.ok()), json!({"op":"typestate.run","container":cont,"pm":pm,"lm":lm,"operation":OPS[*op],"snippet":snippet(*op)})); }
+                    if st.as_ref().ok().and_then(|s| s.code()) == Some(3) { out.hit("typestate.forbidden-state-reached", format!("{}: locking a no-access region succeeded: safe code holds a region typed (NoAccess, Locked)", cont), json!({"op":"typestate.run","container":cont,"pm":pm,"lm":lm,"operation":OPS[*op]})); }
+                    else if !ok { out.hit("typestate.permitted-program-faults", format!("{}: state ({}, {}), operation {}: the permitted program ends with {:?}", cont, pms[*pm], lms[*lm], OPS[*op], st.ok()), json!({"op":"typestate.run","container":cont,"pm":pm,"lm":lm,"operation":OPS[*op],"snippet":snippet(*op)})); }
                 }
             }
             Ok(o) => out.hit("typestate.permitted-program-rejected", format!("the runtime program for {} does not compile: {}", cont, String::from_utf8_lossy(&o.stderr).chars().take(600).collect::<String>()), json!({"source":src})),
